@@ -127,6 +127,27 @@ def catalogue():
                                 call("S1", binds={"x": self_("x")}),
                                 call("C2", binds={"f": ref("P", "g")})],
                                {"a": ref("C1", "r"), "b": ref("C2", "r")})], "TOP", {"x": 1}, filetypes=ft))
+    # 10b. a strictly volatile stage mapped over three elements; only the file of the odd elements is
+    #      used (FILEODD: null otherwise), so some forks have nothing left to reclaim at the end and
+    #      others do; and a strictly volatile stage without any output that writes files
+    P.append(program("vf_strict_mapped", [],
+                     [stage("P", "int x", "file f, txt g, int n", {"f": FILEODD("x"), "g": FILE, "n": const(1)}, volatile="strict"),
+                      C_file("CA", "file[]"),
+                      stage("NOOUT", "int x", "", {}, volatile="strict")],
+                     [pipeline("TOP", "int[] xs, int x", "string a",
+                               [call("P", binds={"x": split(self_("xs"))}, mode="array"),
+                                call("NOOUT", binds={"x": self_("x")}),
+                                call("CA", binds={"f": ref("P", "f")})],
+                               {"a": ref("CA", "r")})], "TOP", {"xs": [2, 1, 4, 3], "x": 1}, filetypes=ft))
+    # 10c. (run bare: stage code writes nothing but its outputs) the forks for even elements write
+    #      no file at all, those for odd elements one that a consumer reads
+    P.append(program("vf_strict_bare", [],
+                     [stage("P", "int x", "file f, int n", {"f": FILEODD("x"), "n": const(1)}, volatile="strict"),
+                      C_file("CA", "file[]")],
+                     [pipeline("TOP", "int[] xs", "string a",
+                               [call("P", binds={"x": split(self_("xs"))}, mode="array"),
+                                call("CA", binds={"f": ref("P", "f")})],
+                               {"a": ref("CA", "r")})], "TOP", {"xs": [2, 1, 4, 3]}, filetypes=ft))
     # 11. a disabled consumer and an enabled one; a consumer of the whole producer
     P.append(program("vf_dis", [], [P_files("P"), C_file("C1"), C_file("C2", "txt"),
                                     S_flag("G"), stage("CW", "int n, file f, txt g", "string r", {"r": INST})],
